@@ -22,8 +22,8 @@ import engine  # noqa: E402
 import annotate  # noqa: E402
 
 VERIF = engine.VERIF
-EVID = os.path.join(VERIF, 'evidence')
-REPLAY_OUT = os.path.join(VERIF, 'replay', 'out')
+EVID = os.environ.get('VERIF_EVIDENCE_DIR') or os.path.join(VERIF, 'evidence')
+REPLAY_OUT = os.path.join(os.environ['VERIF_EVIDENCE_DIR'], 'replay_out') if os.environ.get('VERIF_EVIDENCE_DIR') else os.path.join(VERIF, 'replay', 'out')
 PROPS = os.path.join(VERIF, 'props.json')
 
 
@@ -344,6 +344,8 @@ def decide(prop, tier, seed, cfg, scratch, index, spec_dir, contracts_dir, evide
                     if u['path'] == f['unit']:
                         proved.remove(u)
                         undecided.append(u)
+        if os.environ.get('VERIF_NO_SELFTEST') != '1':
+            extra['selftest_seeded'] = selftest_seeded(prop)
         vac = vacuity_pass(prop, modules, rlimit, spec_dir, contracts_dir)
         extra['vacuity'] = vac
         if vac['vacuous']:
@@ -525,6 +527,45 @@ def decide(prop, tier, seed, cfg, scratch, index, spec_dir, contracts_dir, evide
         return 2
     print('OK property=%s units=%d/%d obligations=%d wall=%.1fs' % (prop, len(proved), n_non_assumed, obligations, wall))
     return 0
+
+
+def selftest_seeded(prop):
+    """Thorough tier: run the quick check against every stored seeded change of this property (applied to a scratch copy
+    of /repo, never to /repo): each should be reported (exit 1) — a measure of the check's strength, not of the code."""
+    import glob
+    import tempfile
+    res = []
+    for d in sorted(glob.glob(os.path.join(VERIF, 'seeded', '*'))):
+        mp = os.path.join(d, 'meta.json')
+        if not os.path.isfile(mp):
+            continue
+        try:
+            meta = json.load(open(mp))
+        except Exception:
+            continue
+        if meta.get('property') != prop:
+            continue
+        tmp = tempfile.mkdtemp(prefix='dryoc_selftest.', dir=os.environ.get('VERIF_SCRATCH', '/var/tmp'))
+        try:
+            shutil.copytree(os.path.join(engine.REPO, 'src'), os.path.join(tmp, 'src'))
+            for f in ('Cargo.toml', 'Cargo.lock'):
+                shutil.copy(os.path.join(engine.REPO, f), tmp)
+            r = subprocess.run(['patch', '-p1', '-s', '-d', tmp, '-i', os.path.join(d, 'patch.diff')], stdout=subprocess.PIPE,
+                               stderr=subprocess.STDOUT, text=True)
+            if r.returncode:
+                res.append({'seeded': os.path.basename(d), 'result': 'patch does not apply to the current tree'})
+                continue
+            env = dict(os.environ, VERIF_REPO=tmp, VERIF_TIER='quick', VERIF_NO_SELFTEST='1',
+                       VERIF_EVIDENCE_DIR=os.path.join(tmp, 'evidence'))
+            c = subprocess.run([sys.executable, os.path.abspath(__file__), prop, '--tier', 'quick'], env=env, cwd=VERIF,
+                               stdout=subprocess.PIPE, stderr=subprocess.PIPE, text=True)
+            viol = [l for l in c.stdout.split('\n') if l.startswith('VIOLATION')]
+            res.append({'seeded': os.path.basename(d), 'exit': c.returncode, 'violations': len(viol),
+                        'with_failing_input': sum(1 for l in viol if 'no-failing-input-found' not in l),
+                        'result': {0: 'MISSED', 1: 'reported', 2: 'undecided'}.get(c.returncode, 'error')})
+        finally:
+            shutil.rmtree(tmp, ignore_errors=True)
+    return res
 
 
 def vacuity_pass(prop, modules, rlimit, spec_dir, contracts_dir):
